@@ -212,6 +212,11 @@ Proof.
 Qed.
 
 Lemma obl_fun (f : node -> M) : obl f -> obl (fun n => f n). Proof. exact (fun H => H). Qed.
+Lemma obl_enter_new_round_open h r : obl (enter_new_round_open h r).
+Proof.
+  intros n s. unfold enter_new_round_open. cbn [step set_sg].
+  destruct (step n <? 8); [exact (obl_enter_new_round h r n s)|obl_done s].
+Qed.
 
 Lemma obl_add_vote_cs c v peer : obl (add_vote_cs c v peer).
 Proof.
@@ -249,7 +254,8 @@ Proof.
       rewrite E2. clearbody n2. clear n2s E2.
       generalize (height n) as hh. intro hh.
       cbn [round proposal votes set_sg].
-      destruct ((round n2 <=? v_round v) && any23 (hv_prevotes hv (v_round v))).
+      unfold any23_open. cbn [step set_sg].
+      destruct ((round n2 <=? v_round v) && ((step n2 <? 8) && any23 (hv_prevotes hv (v_round v)))).
       * revert n2 s. apply obl_bind; [apply obl_enter_new_round|].
         intros m t. cbn [votes set_sg]. destruct (maj23 _); [obl_call (obl_enter_precommit hh (v_round v)) t|].
         revert m t. apply obl_bind; [apply obl_enter_prevote|apply obl_enter_prevote_wait].
@@ -262,13 +268,14 @@ Proof.
     + destruct (N.eqb (v_type v) 2); [|reflexivity]. cbn zeta.
       generalize (height n) as hh. intro hh.
       destruct (maj23 (hv_precommits hv (v_round v))) as [b|].
-      * destruct (b_hash b); [obl_call (obl_enter_new_round hh (v_round v + 1)) s|].
+      * destruct (b_hash b); [obl_call (obl_enter_new_round_open hh (v_round v + 1)) s|].
         revert n s. apply obl_bind; [apply obl_bind; [apply obl_bind|]|].
         -- apply obl_fun. intros m t. obl_call (obl_enter_new_round hh (v_round v)) t.
         -- apply obl_enter_precommit.
         -- apply obl_enter_commit.
         -- intros m t. cbn [height set_sg]. destruct (c_skip_commit c && _); [obl_call (obl_enter_new_round (height m) 0) t|obl_done t].
-      * destruct ((round n <=? v_round v) && any23 (hv_precommits hv (v_round v))); [|obl_done s].
+      * unfold any23_open. cbn [step set_sg set_votes].
+        destruct ((round n <=? v_round v) && ((step n <? 8) && any23 (hv_precommits hv (v_round v)))); [|obl_done s].
         revert n s. apply obl_bind; [apply obl_bind|].
         -- apply obl_fun. intros m t. obl_call (obl_enter_new_round hh (v_round v)) t.
         -- apply obl_enter_precommit.
